@@ -148,8 +148,15 @@ def generate(rng, tier):
         table["nt"] = True
     ops = []
     live = set()
-    for _ in range(rng.randint(10, 30 if tier == "quick" else 60)):
+    long_run = rng.random() < 0.04
+    n_ops = rng.randint(10, 30 if tier == "quick" else 60)
+    if long_run:
+        # a long life: hundreds of assignments of different formats, earlier ones coming back
+        n_ops = rng.choice([80, 150, 300, 500])
+    for _ in range(n_ops):
         r = rng.random()
+        if long_run and r < 0.45:
+            r = 0.76 + rng.random() * 0.13       # formats: new / limits / star / saved, and save_fmt
         if r < 0.16:
             ops.append({"op": "render", "no_color": rng.random() < 0.3, "how": rng.choice(["str", "lines"])})
         elif r < 0.30:
